@@ -1,3 +1,5 @@
--- This module serves as the root of the `EV` library.
--- Import modules here that should be built as part of the library.
-import EV.Basic
+import EV.Props.C01
+import EV.Props.C02
+import EV.Props.C12
+import EV.Props.C18
+import EV.Props.C19
